@@ -8,14 +8,14 @@ Open Scope Z_scope.
 (** ** The off-by-one table *)
 
 Lemma lc_of_left_sound : forall op c k,
-  lc_of_left op c = Some k -> forall n, cmp_holds op n c <-> admits k n.
+  lc_of_left op c = Some k -> forall n, cmp_holds op n c <-> allows k n.
 Proof.
   intros op c k H n.
   destruct op; cbn in H; inversion H; subst; cbn; lia.
 Qed.
 
 Lemma lc_of_right_sound : forall op c k,
-  lc_of_right op c = Some k -> forall n, cmp_holds op c n <-> admits k n.
+  lc_of_right op c = Some k -> forall n, cmp_holds op c n <-> allows k n.
 Proof.
   intros op c k H n.
   destruct op; cbn in H; inversion H; subst; cbn; lia.
@@ -112,8 +112,8 @@ Proof. intros e c H; destruct e; cbn in H; try discriminate; inversion H; reflex
 Lemma match_len_constraint_on_mn_shape : forall e mn k,
   match_len_constraint_on_mn e = Some (mn, k) ->
   exists op f c, text_eqb f len_id = true /\
-    ((e = ECmp op (ECall f [mn]) (EInt c) /\ forall n, cmp_holds op n c <-> admits k n)
-     \/ (e = ECmp op (EInt c) (ECall f [mn]) /\ forall n, cmp_holds op c n <-> admits k n)).
+    ((e = ECmp op (ECall f [mn]) (EInt c) /\ forall n, cmp_holds op n c <-> allows k n)
+     \/ (e = ECmp op (EInt c) (ECall f [mn]) /\ forall n, cmp_holds op c n <-> allows k n)).
 Proof.
   intros e mn k H. destruct e; cbn in H; try discriminate.
   destruct (match_len_on_mn e1) as [mn1|] eqn:H1;
@@ -147,7 +147,7 @@ Qed.
 Lemma eval_recognised_cmp : forall env e p k,
   match_len_constraint_on_property e = Some (p, k) ->
   forall b, evalb env e = Some b ->
-  exists n, env p = Some n /\ (b = true <-> admits k n).
+  exists n, env p = Some n /\ (b = true <-> allows k n).
 Proof.
   intros env e p k H b Hb. unfold match_len_constraint_on_property in H.
   destruct (match_len_constraint_on_mn e) as [[mn k']|] eqn:Hm; try discriminate.
@@ -182,12 +182,12 @@ Proof. intros a b; split; [apply text_eqb_eq | intros ->; apply text_eqb_refl]. 
 (** [match_len_sound]: whatever [len_constraints_from_invariants] recognises in an
     invariant — unguarded, or guarded by [self.p is None or ...] /
     [not (self.p is not None) or ...] on the SAME property — holds of an instance
-    exactly when the property is [None] or its length is admitted by the extracted
+    exactly when the property is [None] or its length is allowed by the extracted
     constraint. *)
 Theorem match_len_invariant_sound : forall body p k,
   match_len_invariant body = Some (p, k) ->
   forall env b, evalb env body = Some b ->
-  (b = true <-> (forall n, env p = Some n -> admits k n)).
+  (b = true <-> (forall n, env p = Some n -> allows k n)).
 Proof.
   intros body p k H env b Hb. unfold match_len_invariant in H.
   destruct (try_conditional_on_prop body) as [[g csq]|] eqn:Hc.
@@ -240,7 +240,7 @@ Lemma match_len_unfixed_refuted :
   exists body p k env,
     match_len_invariant_unfixed body = Some (p, k)
     /\ evalb env body = Some true
-    /\ ~ (forall n, env p = Some n -> admits k n).
+    /\ ~ (forall n, env p = Some n -> allows k n).
 Proof.
   exists (EOr [EIsNone (EMember (EName self_id) [97%N]);
                ECmp Lt (ECall len_id [EMember (EName self_id) [98%N]]) (EInt 3)]),
@@ -317,9 +317,9 @@ Proof. intros A l x H. destruct l; discriminate. Qed.
 
 Lemma step_spec : forall s c n,
   (sat (reduce_step s c) n /\ r_errs (reduce_step s c) = [])
-  <-> (sat s n /\ r_errs s = [] /\ admits c n).
+  <-> (sat s n /\ r_errs s = [] /\ allows c n).
 Proof.
-  intros [mn mx ex errs] c n. unfold sat. destruct c as [v|v|v]; cbn [reduce_step r_min r_max r_exact r_errs admits].
+  intros [mn mx ex errs] c n. unfold sat. destruct c as [v|v|v]; cbn [reduce_step r_min r_max r_exact r_errs allows].
   - rewrite max_with_none_2. destruct mn as [m|]; destruct mx as [m'|]; destruct ex as [e|]; intuition lia.
   - rewrite min_with_none_2. destruct mn as [m|]; destruct mx as [m'|]; destruct ex as [e|]; intuition lia.
   - destruct ex as [e|].
@@ -334,7 +334,7 @@ Qed.
 
 Lemma fold_spec : forall cs s n,
   (sat (fold_left reduce_step cs s) n /\ r_errs (fold_left reduce_step cs s) = [])
-  <-> (sat s n /\ r_errs s = [] /\ forall c, In c cs -> admits c n).
+  <-> (sat s n /\ r_errs s = [] /\ forall c, In c cs -> allows c n).
 Proof.
   induction cs as [|c cs IH]; intros s n; cbn [fold_left].
   - split; [intros [H1 H2]; split; [exact H1 | split; [exact H2 | intros c []]]
@@ -354,7 +354,7 @@ Definition init_state : rstate := mk_rstate None None None [].
 Lemma fold_init_spec : forall cs n,
   (sat (fold_left reduce_step cs init_state) n
    /\ r_errs (fold_left reduce_step cs init_state) = [])
-  <-> (forall c, In c cs -> admits c n).
+  <-> (forall c, In c cs -> allows c n).
 Proof.
   intros cs n. rewrite fold_spec. unfold sat, init_state; cbn. intuition.
 Qed.
@@ -491,11 +491,11 @@ Proof.
   specialize (W1 l Hl). specialize (W3 l h Hl Hh). lia.
 Qed.
 
-(** [reduce_sound]: the reduced range admits exactly the lengths that every constraint
-    admits. *)
+(** [reduce_sound]: the reduced range allows exactly the lengths that every constraint
+    allows. *)
 Theorem reduce_sound : forall cs r,
   reduce cs = Ok r ->
-  forall n, 0 <= n -> ((forall c, In c cs -> admits c n) <-> in_range r n).
+  forall n, 0 <= n -> ((forall c, In c cs -> allows c n) <-> in_range r n).
 Proof.
   intros cs r H n Hn. rewrite reduce_unfold in H. cbn zeta in H.
   destruct (final_errs (fold_left reduce_step cs init_state)) eqn:Hf; [|discriminate].
@@ -526,7 +526,7 @@ Qed.
 (** [reduce_err_unsat]: an error is reported only for constraints that no length
     satisfies ... *)
 Theorem reduce_err_unsat : forall cs errs,
-  reduce cs = Err errs -> ~ exists n, 0 <= n /\ forall c, In c cs -> admits c n.
+  reduce cs = Err errs -> ~ exists n, 0 <= n /\ forall c, In c cs -> allows c n.
 Proof.
   intros cs errs H [n [Hn Hall]]. rewrite reduce_unfold in H. cbn zeta in H.
   apply fold_init_spec in Hall as [Hsat Herrs].
@@ -542,7 +542,7 @@ Qed.
 
 (** ... and conversely unsatisfiable constraints are always reported. *)
 Theorem reduce_unsat_err : forall cs,
-  (~ exists n, 0 <= n /\ forall c, In c cs -> admits c n) ->
+  (~ exists n, 0 <= n /\ forall c, In c cs -> allows c n) ->
   exists errs, reduce cs = Err errs.
 Proof.
   intros cs Hun. destruct (reduce cs) as [r|errs|k] eqn:H.
@@ -575,7 +575,7 @@ Definition reduce_unfixed (cs : list lc) : outcome lenc (list rerr) :=
   end.
 
 Lemma reduce_unfixed_refuted :
-  (exists cs errs, reduce_unfixed cs = Err errs /\ exists n, 0 <= n /\ forall c, In c cs -> admits c n)
+  (exists cs errs, reduce_unfixed cs = Err errs /\ exists n, 0 <= n /\ forall c, In c cs -> allows c n)
   /\ (exists cs k, reduce_unfixed cs = Crash k)
   /\ (exists cs r, reduce_unfixed cs = Ok r /\ ~ exists n, 0 <= n /\ in_range r n).
 Proof.
